@@ -71,10 +71,26 @@ public:
   }
   // canonical structure of a small statement / expression: operators by opcode, parameters by position, callees by name;
   // parentheses, implicit casts, temporaries and elidable copies are transparent
+  std::map<const VarDecl *, std::string> Induct;
   std::string shape(const Stmt *S, const FunctionDecl *F, int depth) {
     if (!S) return "?null";
     if (depth > 12) return "?deep";
     if (auto *R = dyn_cast<ReturnStmt>(S)) return "R(" + (R->getRetValue() ? shape(R->getRetValue(), F, depth + 1) : std::string()) + ")";
+    if (auto *L = dyn_cast<ForStmt>(S)) {
+      // an element loop: the induction variable is named by its nesting level, the body is listed statement by statement
+      const VarDecl *IV = nullptr;
+      if (auto *DS = dyn_cast_or_null<DeclStmt>(L->getInit())) if (DS->isSingleDecl()) IV = dyn_cast<VarDecl>(DS->getSingleDecl());
+      std::string nm = "i" + std::to_string(Induct.size());
+      if (IV) Induct[IV] = nm;
+      std::string r = "L(" + nm + "," + shape(L->getBody(), F, depth + 1) + ")";
+      if (IV) Induct.erase(IV);
+      return r;
+    }
+    if (auto *C = dyn_cast<CompoundStmt>(S)) {
+      std::string r = "{"; bool first = true;
+      for (auto *X : C->body()) { if (isa<NullStmt>(X)) continue; if (!first) r += ";"; first = false; r += shape(X, F, depth + 1); }
+      return r + "}";
+    }
     if (auto *E = dyn_cast<Expr>(S)) {
       const Expr *X = E->IgnoreParenImpCasts();
       if (auto *C = dyn_cast<ExprWithCleanups>(X)) return shape(C->getSubExpr(), F, depth + 1);
@@ -89,6 +105,7 @@ public:
       }
       if (auto *D = dyn_cast<DeclRefExpr>(X)) {
         if (auto *PV = dyn_cast<ParmVarDecl>(D->getDecl())) return "P" + std::to_string(PV->getFunctionScopeIndex());
+        if (auto *VD = dyn_cast<VarDecl>(D->getDecl())) { auto it = Induct.find(VD); if (it != Induct.end()) return it->second; }
         return "D(" + D->getDecl()->getNameAsString() + ")";
       }
       if (auto *B = dyn_cast<BinaryOperator>(X)) return "B(" + B->getOpcodeStr().str() + "," + shape(B->getLHS(), F, depth + 1) + "," + shape(B->getRHS(), F, depth + 1) + ")";
